@@ -150,7 +150,7 @@ theorem widLeafXR : LeafXR WidInv where
   armTop := fun t => by unfold armTop; wid_frame_tac
   setStopping := by unfold setStopping; wid_frame_tac
   setRestarting := by unfold setRestarting; wid_frame_tac
-  clearRestarting := by unfold clearRestarting; wid_frame_tac
+  clearRestarting := fun b => by unfold clearRestarting; wid_frame_tac
   setLoopStop := fun b => by unfold setLoopStop; wid_frame_tac
   setSocketEvent := fun b => by unfold setSocketEvent; wid_frame_tac
   setSockReady := fun b => by unfold setSockReady; wid_frame_tac
@@ -198,7 +198,7 @@ theorem LeafXR.and {I1 I2 : State → Prop} (A : LeafXR I1) (B : LeafXR I2) : Le
   armTop := fun t => Pres.and (A.armTop t) (B.armTop t)
   setStopping := Pres.and A.setStopping B.setStopping
   setRestarting := Pres.and A.setRestarting B.setRestarting
-  clearRestarting := Pres.and A.clearRestarting B.clearRestarting
+  clearRestarting := fun b => Pres.and (A.clearRestarting b) (B.clearRestarting b)
   setLoopStop := fun b => Pres.and (A.setLoopStop b) (B.setLoopStop b)
   setSocketEvent := fun b => Pres.and (A.setSocketEvent b) (B.setSocketEvent b)
   setSockReady := fun b => Pres.and (A.setSockReady b) (B.setSockReady b)
